@@ -11,11 +11,22 @@ pub fn set_now_ns(ns: u64) { NOW_NS.store(ns, Ordering::SeqCst); }
 pub fn advance_ns(ns: u64) -> u64 { NOW_NS.fetch_add(ns, Ordering::SeqCst) + ns }
 pub fn now_ns() -> u64 { NOW_NS.load(Ordering::SeqCst) }
 pub fn set_auto_advance_ns(ns: u64) { AUTO_ADVANCE_NS.store(ns, Ordering::SeqCst); }
+/// every `n`-th reading of the clock is followed by a short sleep (0 = never): widens the window between reading
+/// the clock and the atomic accesses that follow it, so that thread schedules which are rare by chance occur
+static STALL_EVERY: AtomicU64 = AtomicU64::new(0);
+static READINGS: AtomicU64 = AtomicU64::new(0);
+pub fn set_stall_every(n: u64) { STALL_EVERY.store(n, Ordering::SeqCst); }
 
 #[derive(Clone, Copy, Debug, PartialEq, Eq, PartialOrd, Ord, Hash)]
 pub struct Instant(u64);
 impl Instant {
-    pub fn now() -> Self { let a = AUTO_ADVANCE_NS.load(Ordering::SeqCst); Instant(NOW_NS.fetch_add(a, Ordering::SeqCst) + a) }
+    pub fn now() -> Self {
+        let a = AUTO_ADVANCE_NS.load(Ordering::SeqCst);
+        let t = Instant(NOW_NS.fetch_add(a, Ordering::SeqCst) + a);
+        let n = STALL_EVERY.load(Ordering::Relaxed);
+        if n != 0 && READINGS.fetch_add(1, Ordering::Relaxed) % n == 0 { std::thread::sleep(Duration::from_micros(30)); }
+        t
+    }
     pub fn from_ns(ns: u64) -> Self { Instant(ns) }
     pub fn as_ns(&self) -> u64 { self.0 }
     pub fn elapsed(&self) -> Duration { Instant::now() - *self }
